@@ -50,6 +50,13 @@ def protocol_events(protocol):
     return tuple(sorted(out))
 
 
+def struct_of_model(model):
+    """which administration surgery the model carries: none / direct / indirect"""
+    has_dose = any(v.qname() == 'dose.drug_amount' for v in model.states())
+    pace = any(v.binding() == 'pace' for v in model.variables(deep=True))
+    return 'indirect' if has_dose else ('direct' if pace else 'none')
+
+
 class _Compiled(object):
     """Python right-hand side generated from a myokit model."""
 
@@ -167,7 +174,28 @@ class RefSim(object):
         emit('NewSim', sid=self._sid, states=list(self._c.states), pace_bound=self._c.pace_var is not None,
              sens_outputs=(list(self._sens[0]) if self._sens else None),
              sens_params=(list(self._sens[2]) if self._sens else None),
-             protocol=protocol_events(self._protocol), fingerprint=hash(self._model.code()) % (10 ** 9))
+             protocol=protocol_events(self._protocol), fingerprint=hash(self._model.code()) % (10 ** 9),
+             struct=struct_of_model(self._model))
+
+    def __deepcopy__(self, memo):
+        """A deep copy is a new solver object holding the same protocol (as pickling a myokit.Simulation)."""
+        new = RefSim.__new__(RefSim)
+        new._model = self._model.clone()
+        new._c = self._c
+        new._sid = next(_sid)
+        new._protocol = self._protocol.clone() if self._protocol is not None else None
+        new._consts = dict(self._consts)
+        new._default_state = list(self._default_state)
+        new._state = list(self._state)
+        new._time = self._time
+        new._sens = self._sens
+        memo[id(self)] = new
+        emit('NewSim', sid=new._sid, states=list(new._c.states), pace_bound=new._c.pace_var is not None,
+             sens_outputs=(list(new._sens[0]) if new._sens else None),
+             sens_params=(list(new._sens[2]) if new._sens else None),
+             protocol=protocol_events(new._protocol), fingerprint=0, struct=struct_of_model(new._model),
+             deepcopy_of=self._sid)
+        return new
 
     # ---- the calls chi makes ------------------------------------------------------------
     def reset(self):
